@@ -152,3 +152,35 @@ def resolve_origin(shape, origin):
         return row, col
     row, col = origin
     return (row + h if row < 0 else row), (col + w if col < 0 else col)
+
+
+def hankel_cond(shape, row, col, W, orders, odd, meth, sin, rmax):
+    """Condition number of the normal (Hankel) matrix of every radius,
+    computed from the unfolded image pixels (independent of the folding)."""
+    r, cos = polar(shape, row, col)
+    x = cos if odd else cos * cos
+    wt = np.ones(shape) if W is None else W
+    if sin:
+        with np.errstate(all='ignore'):
+            s = np.where(r > 0, np.abs(np.arange(shape[1])[None, :] - col) / np.where(r > 0, r, 1), 1.0)
+        wt = wt * s
+    N = len(orders)
+    conds = np.full(rmax + 1, np.inf)
+    if meth == 'nearest':
+        parts = [(np.rint(r).astype(int), wt)]
+    else:
+        fl = np.floor(r).astype(int)
+        parts = [(fl, wt * (1 - (r - fl))), (fl + 1, wt * (r - fl))]
+    for k in range(rmax + 1):
+        H = np.zeros((N, N))
+        for b, ww in parts:
+            m = (b == k)
+            if m.any():
+                xs, ws = x[m], ww[m]
+                P = np.array([np.sum(ws * xs ** p) for p in range(2 * N - 1)])
+                H += np.array([[P[i + j] for j in range(N)] for i in range(N)])
+        if np.all(np.isfinite(H)) and np.linalg.matrix_rank(H) == N:
+            conds[k] = np.linalg.cond(H)
+    return conds
+
+
